@@ -126,6 +126,30 @@ def skeleton(eng, name, P):
         b2 = [('BF', TS, bf_opts(eng, '0', ['ok', 'raise_after'], catch=P.get('catch', True)), [])]
         tail = [q_hole(eng, '0', kinds, [P1, TS])]
         return [b1 + tail, b2 + tail] if first == 0 else [b2 + tail, b1 + tail]
+    if name == 'A3r':
+        # the first thing a build does is a query (nothing else has touched the bookkeeping yet)
+        t = pick(eng, 't', targets)
+        return [[q_hole(eng, '0', kinds, roles), ('BF', t, bf_opts(eng, '0', modes, catch=True), []),
+                 q_hole(eng, '1', kinds, roles)]]
+    if name == 'V1':
+        # a nested function changes its body together with its version between two builds (its caller does not)
+        wrap = pick(eng, 'wrap', ['SB', 'BF'])
+        m1 = pick(eng, 'm1', ['ok', 'raise_before', 'raise_after'])
+        m2 = pick(eng, 'm2', ['ok', 'raise_after'])
+        def body(m):
+            inner = ('BF', T2, {'mode': m, 'catch': True, 'name': 'f'}, [])
+            outer = ('SB', 's', {}, [inner]) if wrap == 'SB' else ('BF', 'o/w', {'mode': 'ok', 'name': 'w'}, [inner])
+            return [outer, q_hole(eng, '0', ['is_file', 'is_dir'], [T2, TS])]
+        b1 = body(m1)
+        b2 = [b1[0][:3] + ([('BF', T2, {'mode': m2, 'catch': True, 'name': 'f'}, [])],), b1[1]]
+        return [b1, b2]
+    if name == 'P2':
+        # sibling directories whose names are prefixes of each other (o/d, o/dx); the second build no longer builds
+        # o/dx/old, which therefore is a stale output keeping o/dx non-empty until commit
+        b1 = [('BF', 'o/dx/old', {'mode': 'ok'}, []), ('BF', 'o/dx/y', {'mode': 'ok', 'name': 'y'}, [])]
+        b2 = [('BF', 'o/dx/y', {'mode': 'ok', 'name': 'y'}, []),
+              ('BF', 'o/d/g', bf_opts(eng, '0', ['ok', 'raise_before', 'raise_after']), [])]
+        return [b1, b2]
     if name == 'CD':
         # outputs inside the directory that holds the cache file
         return [[('BF', 'c/x', bf_opts(eng, '0', ['ok', 'raise_before', 'raise_after'], catch=True), []),
